@@ -51,7 +51,7 @@ class Call:
   """One RPC, as seen by the fault policy and the recorder."""
   __slots__ = ('idx', 'addr_idx', 'address', 'method', 'origin', 'future',
                'payload', 'timeout', 'start', 'outcome', 'node', 'faults',
-               'faults_pending')
+               'faults_pending', 'ran_at')
 
   def __init__(self, idx, addr_idx, address, method, origin, future, payload,
                timeout, start):
@@ -68,6 +68,7 @@ class Call:
     self.node = None
     self.faults = []
     self.faults_pending = ()
+    self.ran_at = None     # simulated time at which the bound function started
 
   def brief(self):
     return (self.idx, self.address, self.method, self.addr_idx, self.outcome,
@@ -269,6 +270,7 @@ class Net:
             UNIMPLEMENTED, f'method {call.method} not found')
       else:
         args, kwargs = pickle.loads(call.payload)
+        call.ran_at = time.monotonic()
         try:
           result = pickle.dumps(fn(*args, **kwargs))
           ok = True
